@@ -62,6 +62,9 @@ def plan(tier):
     return {"shards": 2, "params": {"extra_files": 2, "sections": 2500, "histories": 2500, "paths": 300, "budget_s": 300}, "timeout_s": 900}
 
 
+ROOT_SPELLINGS = ["plain", "trailing-slash", "double-slash", "dotdot", "dot-relative", "relative"]
+
+
 def _pm():
     import productmd.treeinfo as t
     import productmd.images as i
@@ -115,15 +118,24 @@ def check_digests(ctx, pmt, rng):
             probs = []
             if got != want:
                 probs.append("compute_checksum: %s" % got)
-            # through Checksums.add with no value given
+            # through Checksums.add with no value given; the tree root is spelled the way callers spell directories
+            spell = ROOT_SPELLINGS[(si + algs.index(alg)) % len(ROOT_SPELLINGS)]
+            ctx.count("root-spelled-" + spell)
+            cwd = os.getcwd()
             try:
+                root_sp = {"plain": root, "trailing-slash": root + "/", "double-slash": root.replace("/files", "//files") + "//",
+                           "dotdot": os.path.join(root, "dir%d" % si, ".."), "dot-relative": "./files", "relative": "files"}[spell]
+                if spell in ("dot-relative", "relative"):
+                    os.chdir(os.path.dirname(root))
                 ti = pmt.TreeInfo()
-                ti.checksums.add(rel, alg, None, root)
+                ti.checksums.add(rel, alg, None, root_sp)
                 rec = ti.checksums.checksums.get(rel)
-                if rec is None or list(rec) != [alg, want]:
-                    probs.append("Checksums.add recorded %r" % (rec,))
+                if rec is None or list(rec) != [alg, want] or len(ti.checksums.checksums) != 1:
+                    probs.append("Checksums.add (root spelled %r) recorded %r" % (root_sp, dict(ti.checksums.checksums)))
             except Exception as e:
                 probs.append("Checksums.add raised %s: %s" % (type(e).__name__, e))
+            finally:
+                os.chdir(cwd)
             tool = COREUTILS.get(alg)
             if tool and shutil.which(tool):
                 out = subprocess.run([tool, path], stdout=subprocess.PIPE, text=True).stdout.split()
@@ -312,8 +324,36 @@ def check_section(ctx, pmt, entries):
 
 # ---- Image.add_checksum histories ----------------------------------------------------------
 
-def check_history(ctx, pmi, rng):
+SIB_ATTRS = {"path": "Live/x86_64/iso/KDE.iso", "mtime": 1, "size": 2, "volume_id": None, "type": "live", "format": "iso", "arch": "x86_64",
+             "disc_number": 1, "disc_count": 1, "checksums": {}, "implant_md5": None, "bootable": True, "subvariant": "",
+             "unified": False, "additional_variants": []}
+
+
+def check_history(ctx, pmi, rng, script=None):
+    """script: {"container": None|"legacy"|"current", "ops": [[type, value], ...]} replays a recorded history."""
     img = pmi.Image(None)
+    sib = None
+    container = script["container"] if script else ("none" if rng.random() < 0.5 else "legacy" if rng.random() < 0.6 else "current")
+    if container in ("legacy", "current"):
+        # the image lives in a manifest next to a DIFFERENT file with the same identity attributes (pre-1.1 manifests
+        # have no subvariant: the KDE and the LXDE live ISO) or next to another listing with another identity
+        from rv import fmt_images as FI
+        im = pmi.Images()
+        legacy = container == "legacy"
+        if legacy:
+            im.header.version = "1.0"
+        img = FI.make_image(pmi, im, dict(SIB_ATTRS))
+        sib = FI.make_image(pmi, im, dict(SIB_ATTRS, path="Live/x86_64/iso/LXDE.iso", subvariant="" if legacy else "LXDE",
+                                          checksums={"md5": "5" * 32, "sha1": "1" * 40}))
+        img.checksums = {"sha512": "0" * 128}
+        try:
+            im.add("Live", "x86_64", sib)
+            im.add("Live", "x86_64", img)
+            ctx.count("history-in-container-legacy-lookalike" if legacy else "history-in-container")
+        except Exception:
+            sib = None
+            img = pmi.Image(None)
+    sib_before = dict(sib.checksums) if sib is not None else None
     types = ["md5", "sha1", "sha256"]
     vals = dict((t, [text.chars(rng, HEX, 8, 8) for _ in range(2)]) for t in types)
     ops = []
@@ -321,10 +361,15 @@ def check_history(ctx, pmi, rng):
         t = rng.choice(types)
         v = rng.choice([vals[t][0], vals[t][0], vals[t][1], "", None, ""])
         ops.append([t, v])
+    if script:
+        ops = [list(o) for o in script["ops"]]
     readd = False
     for step, (t, v) in enumerate(ops):
         before = dict(img.checksums)
         had = before.get(t)
+        if v and len(v) == 8 and sib is not None and not script:
+            v = v * 4 if t == "md5" else v * 5 if t == "sha1" else v * 8
+            ops[step][1] = v
         if t in before:
             readd = True
             if not had and v:
@@ -349,10 +394,12 @@ def check_history(ctx, pmi, rng):
             probs.append("a different value for %s was offered and no error was raised" % t)
         if got not in ("returned", "ValueError"):
             probs.append(got)
+        if sib is not None and dict(sib.checksums) != sib_before:
+            probs.append("the checksums of ANOTHER image of the manifest (%s) changed from %r to %r" % (sib.path, sib_before, dict(sib.checksums)))
         ctx.monitor("add-checksum-history", fired=bool(probs))
         if probs:
             ctx.violation("add-checksum-history", "an image's recorded checksum is never silently replaced by a different value",
-                          {"ops": ops[:step + 1]}, observed=probs, expected="recorded non-empty values unchanged; conflict raises")
+                          {"ops": ops[:step + 1], "container": container}, observed=probs, expected="recorded non-empty values unchanged; conflict raises")
             break
     return ops, readd
 
@@ -387,18 +434,7 @@ def replay(ctx, case):
     if "entries" in case:
         check_section(ctx, pmt, case["entries"])
     elif "ops" in case:
-        img = pmi.Image(None)
-        for t, v in case["ops"]:
-            before = dict(img.checksums)
-            try:
-                img.add_checksum("/root", t, v)
-            except ValueError:
-                pass
-            for tt, vv in before.items():
-                if vv and img.checksums.get(tt) != vv:
-                    ctx.violation("add-checksum-history", "an image's recorded checksum is never silently replaced by a different value",
-                                  case, observed="%s changed" % tt, expected="unchanged")
-        ctx.monitor("add-checksum-history")
+        check_history(ctx, pmi, random.Random(0), script={"container": case.get("container", "none"), "ops": case["ops"]})
     elif "size" in case:
         root = os.path.join(ctx.scratch, "files")
         os.makedirs(root, exist_ok=True)
